@@ -284,7 +284,7 @@ def st_multimodel(files):
 
 
 def plan(tier, seed):
-    specs = c03.plan(tier, seed)
+    specs = c03.base_plan(tier, seed)
     specs.append({"kind": "saenger", "files": []})
     n = 8 if tier == "quick" else 16
     ex = 20 if tier == "quick" else 400
